@@ -160,9 +160,15 @@ def runVAL (env : Env) (p : Json) : Except Query Json :=
       | .miss q => .error q
       | _ =>
         let same := encOut (crashBlind o) == encOut (crashBlind os)
-        match encOut o with
-        | .obj kvs => .ok (.obj (kvs ++ [("srcDiff".toList, if same then .null else encOut os)]))
-        | j => .ok j
+        -- … and through the evaluator whose layers are the interpreted source of the METHOD iter_errors
+        let om := Py.evalMeth env noFmtImpl cfg schema fuel inst schema budget st
+        match om.stop with
+        | .miss q => .error q
+        | _ =>
+          let sameM := encOut (crashBlind o) == encOut (crashBlind om)
+          match encOut o with
+          | .obj kvs => .ok (.obj (kvs ++ [("srcDiff".toList, if same then (if sameM then .null else encOut om) else encOut os)]))
+          | j => .ok j
 
 def decOp (j : Json) : Option Op :=
   match j with
